@@ -40,6 +40,13 @@ Parameter-coverage extension (every parameter / documented input form of the anc
   products overflow (or underflow so much that the target interval is not resolved) return SKIP (`_lim_ok`), gradual
   underflow enters the tolerance (`_lim_under`); the exact-boundary requirement for outside points applies once the
   exact image is outside by more than the tolerance.
+* the same argument OBJECTS for several calls: C18.repeat.same_objects - every grid / stat function three times with the
+  same point / index / option / sample objects (single point and batch; options as float64 / platform-int ndarrays - the
+  dtypes the library converts to, so that its prepared option IS the caller's array -, lists, scalars, float32 / int32,
+  float n, mixed, non-contiguous views): arguments bit-identical after every call, every answer bit-identical to a call
+  with fresh equal arguments, earlier results untouched (`gen.repeat_calls`); C18.session.shared_options - a loop over
+  all indices of a grid with ONE set of option objects: exact nodes, round trip (single list / array points, batches),
+  nearest node of arbitrary points and poi_scale against the exact reference for the first and for every later call.
 * Disabled DOUBTFUL cases (subnormal box widths, over- / underflowing products, cancellation of offset limits on offset
   boxes) are documented above `cases`.
 """
@@ -63,7 +70,9 @@ BOUNDS = ('boxes: 12 (quick) / 30 (thorough) with magnitudes 1e-300..1e300, offs
           'and point dtypes int8..uint64 / float32 on 5 integer boxes, n = 2..300 (70000 thorough); grid_flat with '
           'modes up to 70000 and up to 2^18 (quick 2^16) rows, every row; cdf sample forms (int, float32, constant, '
           'two-valued, sorted, scales 1e-300..1e300, m up to 4096 / 100000); DKW band m = 1..1000 / 100000, '
-          'alpha = default, 1e-300..1')
+          'alpha = default, 1e-300..1; repeated calls with the same argument objects: 10 functions x 7 option forms x '
+          '{single point, batch} (d = 1..3, thorough 6) three calls each; sessions of 4 (6) boxes sets x 7 forms x 2 kinds over all '
+          'indices with shared option objects')
 
 EPS = np.finfo(float).eps
 
@@ -893,6 +902,179 @@ def cdf_band(m, alpha, kind, seed):
 
 
 # ---------------------------------------------------------------------------------------------------------------------
+# the same argument OBJECTS used for more than one call (state must not be carried from one call to the next)
+# ---------------------------------------------------------------------------------------------------------------------
+
+OPT_FORMS = ('native', 'list', 'scalar', 'narrow', 'floatn', 'mixed', 'view')
+
+
+def _opt_objects(form, a, b, n):
+    """(A, B, N): the options a, b (floats) and n (ints), given as lists of length d, in one of the documented forms.
+    'native' = float64 / platform-int ndarrays, i.e. exactly the dtypes the library converts to (np.asanyarray then
+    returns the caller's own object); 'view' = non-contiguous views of these dtypes."""
+    d = len(n)
+    if form == 'native':
+        return np.array(a, dtype=float), np.array(b, dtype=float), np.array([int(k) for k in n])
+    if form == 'list':
+        return [float(x) for x in a], [float(x) for x in b], [int(k) for k in n]
+    if form == 'scalar':
+        return float(a[0]), float(b[0]), int(n[0])
+    if form == 'narrow':
+        return np.array(a, dtype=np.float32), np.array(b, dtype=np.float32), np.array(n, dtype=np.int32)
+    if form == 'floatn':
+        return np.array(a, dtype=float), np.array(b, dtype=float), np.array(n, dtype=float)
+    if form == 'mixed':
+        return np.array(a, dtype=float), [float(x) for x in b], np.array([int(k) for k in n])
+    if form == 'view':
+        A, B, N = np.zeros(2 * d), np.zeros(2 * d), np.zeros(2 * d, dtype=int)
+        A[::2], B[::2], N[::2] = a, b, n
+        return A[::2], B[::2], N[::2]
+    raise ValueError(form)
+
+
+REPEAT_FNS = ('ind_to_poi', 'poi_to_ind', 'poi_scale', 'poi_scale_lim', 'grid_prep_opt', 'grid_prep_opts', 'grid_flat',
+              'cdf_getter', 'cdf_closure', 'cdf_confidence')
+
+
+@clause('C18.repeat.same_objects', funcs=('grid.ind_to_poi', 'grid.poi_to_ind', 'grid.poi_scale', 'grid.grid_prep_opt',
+                                           'grid.grid_prep_opts', 'grid.grid_flat', 'stat.cdf_getter', 'stat.cdf_confidence'))
+def repeat_same_objects(fn, d, m, form, kind, seed):
+    """Every grid function called three times WITH THE SAME ARGUMENT OBJECTS (m = 0: a single point / 1-D argument,
+    m > 0: a batch of m rows; options in the form `form`): every call leaves every argument bit-identical and returns
+    bit for bit the answer of a call with equal but fresh arguments; no result is changed by a later call
+    (`gen.repeat_calls`)."""
+    g = gen.rng('C18r', fn, d, m, form, kind, seed)
+    uni = form == 'scalar'
+    n = [int(g.integers(2, 12))] * d if uni else [int(x) for x in g.integers(2, 12, size=d)]
+    a = [float(np.round(g.uniform(-5, 1), 3))] * d if uni else [float(x) for x in np.round(g.uniform(-5, 1, size=d), 3)]
+    b = [a[k] + float(np.round(g.uniform(0.5, 7), 3)) for k in range(d)] if not uni else [a[0] + 2.5] * d
+    A, B, N = _opt_objects(form, a, b, n)
+    shp = (d,) if m == 0 else (m, d)
+    X = np.array(a) + (np.array(b) - np.array(a)) * g.uniform(-0.2, 1.2, size=shp)
+    I = np.stack([g.integers(0, k, size=shp[:-1]) for k in n], axis=-1)
+    if fn == 'ind_to_poi':
+        calls = [(teneva.ind_to_poi, [I, A, B, N, kind]), (teneva.ind_to_poi, [I.tolist(), A, B, N, kind])]
+    elif fn == 'poi_to_ind':
+        calls = [(teneva.poi_to_ind, [X, A, B, N, kind]), (teneva.poi_to_ind, [X.tolist(), A, B, N, kind])]
+    elif fn == 'poi_scale':
+        calls = [(teneva.poi_scale, [X, A, B, kind]), (teneva.poi_scale, [X.tolist(), A, B, kind])]
+    elif fn == 'poi_scale_lim':
+        calls = [(teneva.poi_scale, [X, A, B, [-2.0, 3.0]]), (teneva.poi_scale, [X.tolist(), A, B, [0.5, 4.0]])]
+    elif fn == 'grid_prep_opt':
+        rp = None if m == 0 else m
+        calls = [(teneva.grid_prep_opt, [A, d, float, rp]), (teneva.grid_prep_opt, [N, d, int, rp]),
+                 (teneva.grid_prep_opt, [B, d, float, rp])]
+        if form != 'scalar':                # d can only be recovered from a vector option
+            calls.append((teneva.grid_prep_opt, [N, None, int, rp]))
+    elif fn == 'grid_prep_opts':
+        rp = None if m == 0 else m
+        calls = [(teneva.grid_prep_opts, [A, B, N, d, rp]), (teneva.grid_prep_opts, [A, None, N, d, rp]),
+                 (teneva.grid_prep_opts, [None, B, N, d, rp])]
+    elif fn == 'grid_flat':
+        calls = [(teneva.grid_flat, [N])]
+    elif fn in ('cdf_getter', 'cdf_closure', 'cdf_confidence'):
+        x = g.normal(size=max(1, d * (m + 1)))
+        x = {'native': x, 'list': x.tolist(), 'narrow': x.astype(np.float32), 'view': np.repeat(x, 2)[::2]}.get(form, np.sort(x))
+        ts = np.r_[np.asarray(x, dtype=float)[:4], g.normal(size=5), -np.inf, np.inf]
+        if fn == 'cdf_getter':
+            calls = [(lambda x_, t_: teneva.cdf_getter(x_)(t_), [x, ts]), (lambda x_, t_: teneva.cdf_getter(x_)(t_), [x, float(ts[0])])]
+        elif fn == 'cdf_closure':
+            calls = [(teneva.cdf_getter(x), [ts]), (teneva.cdf_getter(x), [float(ts[1])])]
+        else:
+            y = np.sort(g.uniform(size=len(ts)))
+            calls = [(teneva.cdf_confidence, [y]), (teneva.cdf_confidence, [y, 0.1])]
+    else:
+        raise ValueError(fn)
+    for j, (f, args) in enumerate(calls):
+        _, msg = gen.repeat_calls(f, args, times=3, what=f'{fn} (call form {j}, options as {form}, {"single point" if m == 0 else f"batch of {m}"})')
+        if msg:
+            return FAIL(msg)
+    return PASS
+
+
+@clause('C18.session.shared_options', funcs=('grid.ind_to_poi', 'grid.poi_to_ind', 'grid.poi_scale', 'grid.grid_prep_opts',
+                                              'grid.grid_prep_opt'))
+def session_shared_options(boxes, n, kind, form, seed):
+    """A loop over a grid that keeps ONE set of option objects (a, b, n in the form `form`) for all its calls: for every
+    index (single points given as lists and as arrays, and batches) index -> point is the exact node, point -> index
+    returns the index, arbitrary points go to a nearest node / the boundary index, poi_scale is the exact affine map -
+    for the FIRST and for every LATER call alike - and the option objects are bit-identical after every call."""
+    a = [float(x[0]) for x in boxes]
+    b = [float(x[1]) for x in boxes]
+    d = len(n)
+    if form == 'scalar':
+        a, b, n = [a[0]] * d, [b[0]] * d, [n[0]] * d
+    if not all(_cond_n(x, y, k, kind) for x, y, k in zip(a, b, n)):
+        return SKIP('grid not resolvable')
+    A, B, N = _opt_objects(form, a, b, n)
+    if form == 'narrow':                    # the reference uses the values the narrow arrays really hold
+        a, b = [float(x) for x in A], [float(x) for x in B]
+        if not all(_cond_n(x, y, k, kind) for x, y, k in zip(a, b, n)):
+            return SKIP('grid not resolvable')
+    snap = gen.snapshot([A, B, N])
+    g = gen.rng('C18S', boxes, n, kind, form, seed)
+    calls = 0
+
+    def unchanged(what, arg=None, argsnap=None):
+        if arg is not None and gen.snapshot(arg) != argsnap:
+            return f'call #{calls} ({what}) changed its point / index argument: now {arg!r}'
+        return None if gen.snapshot([A, B, N]) == snap else \
+            f'call #{calls} ({what}) changed the caller\'s option objects: now a={A!r}, b={B!r}, n={N!r}'
+
+    for i in range(max(n)):
+        I = [min(i, k - 1) for k in n]
+        for arg in (I, np.array(I)):
+            calls += 1
+            asnap = gen.snapshot(arg)
+            x = teneva.ind_to_poi(arg, A, B, N, kind)
+            msg = unchanged('ind_to_poi, single index', arg, asnap)
+            if msg:
+                return FAIL(msg)
+            if x.shape != (d,):
+                return FAIL(f'call #{calls}: ind_to_poi single index -> shape {x.shape}')
+            for k in range(d):
+                w_, tol = _node_ref(I[k], a[k], b[k], n[k], kind)
+                if not abs(x[k] - w_) <= tol:
+                    return FAIL(f'call #{calls}: ind_to_poi({I}) coordinate {k} = {x[k]!r}, exact node {w_!r} of (a, b, n) = '
+                                f'({a[k]!r}, {b[k]!r}, {n[k]})')
+        for nm, arg in (('single point (array)', x), ('single point (list)', x.tolist()), ('batch', np.array([x, x]))):
+            calls += 1
+            asnap = gen.snapshot(arg)
+            J = teneva.poi_to_ind(arg, A, B, N, kind)
+            msg = unchanged('poi_to_ind, ' + nm, arg, asnap)
+            if msg:
+                return FAIL(msg)
+            rows = J.tolist() if nm == 'batch' else [J.tolist()]
+            if J.dtype.kind not in 'iu' or any(row != I for row in rows):
+                return FAIL(f'call #{calls}: round trip of {I} ({nm}) gives {J.tolist()}')
+    for t in range(6):
+        x = [float(a[k] + (b[k] - a[k]) * g.uniform(-0.3, 1.3)) for k in range(d)]
+        for nm, arg in (('list', x), ('array', np.array(x))):
+            calls += 1
+            asnap = gen.snapshot(arg)
+            J = teneva.poi_to_ind(arg, A, B, N, kind)
+            msg = unchanged('poi_to_ind, query point', arg, asnap)
+            if msg:
+                return FAIL(msg)
+            for k in range(d):
+                msg = _check_nearest(x[k], int(J[k]), a[k], b[k], n[k], kind)
+                if msg:
+                    return FAIL(f'call #{calls} (query point as {nm}), coordinate {k} with (a, b, n) = ({a[k]!r}, {b[k]!r}, {n[k]}): {msg}')
+        calls += 1
+        arg = np.array(x)
+        S = teneva.poi_scale(arg, A, B, kind)
+        msg = unchanged('poi_scale', arg, gen.snapshot(np.array(x)))
+        if msg:
+            return FAIL(msg)
+        lo, hi = (0.0, 1.0) if kind == 'uni' else (-1.0, 1.0)
+        for k in range(d):
+            msg = _scale_msg(x[k], float(S[k]), a[k], b[k], lo, hi, kind)
+            if msg:
+                return FAIL(f'call #{calls}: poi_scale coordinate {k}: {msg}')
+    return PASS
+
+
+# ---------------------------------------------------------------------------------------------------------------------
 # DOUBTFUL — disabled (not registered, not yielded).  Inputs inside the quantifier ("any magnitude and offset", "given
 # limits") for which the pinned tree returns wrong values, but only through over- / underflow at the ends of the double
 # range or through cancellation in the formula of the limits map; reported, not decided.  To enable: decorate with
@@ -1064,3 +1246,18 @@ def cases(tier, seed):
         for alpha in (0, 0.05, 0.5, 1e-6, 1.0) + ((0.01, 0.999, 1e-300) if big else ()):
             for kind in ('cdf', 'edge', 'rand') if big else (('cdf', 'edge', 'rand')[(m + int(alpha * 10)) % 3],):
                 yield 'C18.cdf_confidence.band', dict(m=m, alpha=alpha, kind=kind, seed=rs())
+    # ---- the same argument objects for several calls --------------------------------------------------------------------
+    for fn in REPEAT_FNS:
+        stat = fn.startswith('cdf')
+        for form in (('native', 'list', 'narrow', 'view', 'floatn') if stat else OPT_FORMS):
+            for d, m in ((1, 0), (3, 0), (3, 2), (2, 5)) + (((5, 0), (1, 1), (6, 3)) if big else ()):
+                for kind in (('uni',) if stat or fn in ('poi_scale_lim', 'grid_prep_opt', 'grid_prep_opts', 'grid_flat') else ('uni', 'cheb')):
+                    if fn == 'grid_flat' and (form in ('floatn',) or m):
+                        continue
+                    yield 'C18.repeat.same_objects', dict(fn=fn, d=d, m=m, form=form, kind=kind, seed=rs() % 1000)
+    for kind in ('uni', 'cheb'):
+        for sel, n in (([0, 2, 9], [9, 8, 7]), ([1], [12]), ([3, 4], [2, 5]), ([2, 0, 1, 9, 6], [3, 4, 2, 6, 5])) + \
+                ((([5, 6, 7, 8], [7, 3, 16, 4]), ([9], [33])) if big else ()):
+            for form in OPT_FORMS:
+                yield 'C18.session.shared_options', dict(boxes=[list(boxes[k]) for k in sel], n=n, kind=kind, form=form,
+                                                         seed=rs() % 1000)
